@@ -69,6 +69,7 @@ func (r *rec) do(th int, c call, val int) {
 	var rangeSeen [lin.Keys]int
 	var rangeAt [lin.Keys]int
 	dup := false
+	var nested []lin.Op
 	vrt.Begin()
 	switch c.op {
 	case "Load":
@@ -81,7 +82,11 @@ func (r *rec) do(th int, c call, val int) {
 		o.Val, o.Ok = r.m.LoadAndDelete(c.k)
 	case "Delete":
 		r.m.Delete(c.k)
-	case "Range":
+	case "Range", "Range+Store", "Range+LoadOrStore", "Range+Delete", "Range+Load":
+		// "Range+X": the callback, on its first invocation, makes call X on key c.k of the SAME map
+		// (the documented contract of Range allows any method to be called from the callback); X is
+		// recorded as an operation of its own inside the Range call's interval
+		nestedDone := false
 		r.m.Range(func(k, v int) bool {
 			if k >= lin.Keys {
 				return true // crowd keys: outside the modelled universe
@@ -91,11 +96,30 @@ func (r *rec) do(th int, c call, val int) {
 			}
 			rangeSeen[k] = v
 			rangeAt[k] = vrt.Now()
+			if c.op != "Range" && !nestedDone {
+				nestedDone = true
+				n := lin.Op{Kind: c.op[6:], Key: c.k, Arg: val, Thread: th + 20, Inv: vrt.Now()}
+				switch n.Kind {
+				case "Store":
+					r.m.Store(c.k, val)
+				case "LoadOrStore":
+					n.Val, n.Ok = r.m.LoadOrStore(c.k, val)
+				case "Delete":
+					r.m.Delete(c.k)
+				case "Load":
+					n.Val, n.Ok = r.m.Load(c.k)
+				}
+				if n.Ret = vrt.Now(); n.Ret <= n.Inv {
+					n.Ret = n.Inv + 1
+				}
+				nested = append(nested, n)
+			}
 			return true
 		})
 	}
 	o.Inv, o.Ret = vrt.End()
-	if c.op == "Range" {
+	if len(c.op) >= 5 && c.op[:5] == "Range" {
+		r.ops[th] = append(r.ops[th], nested...)
 		// decomposed: one pseudo-load per key, inside the Range call's interval; a key that
 		// was seen was loaded no later than its callback
 		for k := 0; k < lin.Keys; k++ {
@@ -207,6 +231,21 @@ func main() {
 		for i, a := range alphabet {
 			for _, b := range alphabet[i:] {
 				scs = append(scs, scenario(li, [][]call{{a}, {b}}, -1, ev.Pick(r, 1, 2)))
+			}
+		}
+	}
+	// calls made from inside a Range callback (same goroutine, same map), alone and against every
+	// single call of a second thread, from EVERY reachable layout
+	nestedCalls := []call{{"Range+Store", 2}, {"Range+Store", 0}, {"Range+LoadOrStore", 2}, {"Range+Delete", 1}, {"Range+Load", 2}}
+	for _, li := range layouts {
+		for _, a := range nestedCalls {
+			scs = append(scs, scenario(li, [][]call{{a}}, -1, -2))
+		}
+	}
+	for _, li := range some {
+		for _, a := range nestedCalls[:3] {
+			for _, b := range alphabet {
+				scs = append(scs, scenario(li, [][]call{{a}, {b}}, ev.Pick(r, 3, -1), -2))
 			}
 		}
 	}
@@ -379,7 +418,7 @@ func main() {
 		}
 		add("states")
 		add("transitions")
-		r.Set("rule", "(a) sequential: explicit-state BFS to fixpoint over the real sync2.Map (plain build), alphabet Load/Store/LoadOrStore/LoadAndDelete/Delete x keys x values {1,2}, Range full and stopping after one call, Load of a never-stored key; state = fingerprint of the complete concrete layout (read map, dirty map, amended, misses, nil/expunged/live entries) plus contents; oracle map[K]V. (b) concurrent: controlled scheduler over the instrumented build, from EVERY reachable concrete layout of a 2-key map (computed by the same explicit-state search; a spread-out subset of them for the larger programs): every unordered pair of single calls from the 11-call alphabet over keys {a,b} under ALL interleavings; multisets of three single calls and pairs of two-call programs under a preemption bound; every complete execution's call/return history (Range decomposed into per-key pseudo-loads inside its interval, final contents read after quiescence) checked for linearizability with porcupine; the pair scenarios also run under the race detector inside every explored schedule")
+		r.Set("rule", "(a) sequential: explicit-state BFS to fixpoint over the real sync2.Map (plain build), alphabet Load/Store/LoadOrStore/LoadAndDelete/Delete x keys x values {1,2}, Range full and stopping after one call, Load of a never-stored key; state = fingerprint of the complete concrete layout (read map, dirty map, amended, misses, nil/expunged/live entries) plus contents; oracle map[K]V. (b) concurrent: controlled scheduler over the instrumented build, from EVERY reachable concrete layout of a 2-key map (computed by the same explicit-state search; a spread-out subset of them for the larger programs): every unordered pair of single calls from the 11-call alphabet over keys {a,b} under ALL interleavings; multisets of three single calls and pairs of two-call programs under a preemption bound; Range calls whose callback itself calls Store/LoadOrStore/Delete/Load on the same map (alone from every layout, and against every single call of a second thread); every complete execution's call/return history (Range decomposed into per-key pseudo-loads inside its interval, final contents read after quiescence) checked for linearizability with porcupine; the pair scenarios also run under the race detector inside every explored schedule")
 		r.Assume("Go's atomics are sequentially consistent, so interleaving at the granularity of atomic/mutex operations is exact; memory orderings below the Go memory model are not modelled")
 	})
 }
